@@ -9,6 +9,7 @@ import (
 	_ "github.com/crossplane/crossplane/verifsim/props/c03"
 	_ "github.com/crossplane/crossplane/verifsim/props/c06"
 	_ "github.com/crossplane/crossplane/verifsim/props/c12"
+	_ "github.com/crossplane/crossplane/verifsim/props/c13"
 )
 
 // TestWorker is the single entry point of the harness binary; behaviour is
